@@ -225,25 +225,34 @@ def spinToBinary (m : Qm) : Qm :=
 def lowerTriples (m : Qm) : List (Nat × Nat × Rat) :=
   (List.range m.adj.length).flatMap fun u => ((m.nbhAt u).filter (fun p => p.1 ≤ u)).map fun p => (u, p.1, p.2)
 
+/-- `update`: position `i` of `other` carries a label the receiver knows with another vartype or other bounds -/
+def clashAt (m o : Qm) (i : Nat) : Bool :=
+  match o.labels[i]? with
+  | some l => match m.indexOf? l with
+    | some j => m.vtAt j ≠ o.vtAt i || m.lb.getD j 0 ≠ o.lb.getD i 0 || m.ub.getD j 0 ≠ o.ub.getD i 0
+    | none => false
+  | none => false
+
+/-- `update`: add the variable at position `i` of `other` unless its label is known -/
+def addMissing (o : Qm) (acc : Qm) (i : Nat) : Qm :=
+  match o.labels[i]? with
+  | some l => match acc.indexOf? l with
+    | some _ => acc
+    | none => (acc.addVariable (o.vtAt i) (some l) (some (o.lb.getD i 0)) (some (o.ub.getD i 0))).1
+  | none => acc
+
+/-- `update`: the receiver's index of the variable at position `i` of `other` -/
+def mapIdx (o m1 : Qm) (i : Nat) : Nat :=
+  match o.labels[i]? with
+  | some l => (m1.indexOf? l).getD 0
+  | none => 0
+
 /-- `cyQM.update(other)`: the overlap is checked before anything is changed -/
 def update (m : Qm) (o : Qm) : Qm × Option ErrC :=
   let idx := List.range o.n
-  let clash := idx.any fun i =>
-    match o.labels[i]? with
-    | some l => match m.indexOf? l with
-      | some j => m.vtAt j ≠ o.vtAt i || m.lb.getD j 0 ≠ o.lb.getD i 0 || m.ub.getD j 0 ≠ o.ub.getD i 0
-      | none => false
-    | none => false
-  if clash then (m, some .value) else
-  let m1 := idx.foldl (fun acc i =>
-    match o.labels[i]? with
-    | some l => match acc.indexOf? l with
-      | some _ => acc
-      | none => (acc.addVariable (o.vtAt i) (some l) (some (o.lb.getD i 0)) (some (o.ub.getD i 0))).1
-    | none => acc) m
-  let mapping : List Nat := idx.map fun i => match o.labels[i]? with
-    | some l => (m1.indexOf? l).getD 0
-    | none => 0
+  if idx.any (m.clashAt o) then (m, some .value) else
+  let m1 := idx.foldl (addMissing o) m
+  let mapping : List Nat := idx.map (o.mapIdx m1)
   let m2 := { m1 with lin := idx.foldl (fun l i => modifyAt l (mapping.getD i 0) (· + o.linAt i)) m1.lin }
   let m3 := o.lowerTriples.foldl (fun acc t => acc.addQ (mapping.getD t.1 0) (mapping.getD t.2.1 0) t.2.2 false) m2
   ({ m3 with off := m3.off + o.off }, none)
